@@ -186,6 +186,15 @@ func structurePrograms() []node {
 	}
 }
 
+func mergesWithSlash(tok string) bool {
+	for _, c := range tok {
+		if !(c >= 'A' && c <= 'Z' || c >= '0' && c <= '9' || c == '/' || c == '%' || c == '.') {
+			return false
+		}
+	}
+	return tok != ""
+}
+
 // layoutVariants inserts whitespace, newlines and comments between tokens.
 func layoutVariants(text string) []string {
 	real := lexTokens(text)
@@ -208,5 +217,13 @@ func layoutVariants(text string) []string {
 		join(func(int) string { return "\n// comment\n" }),
 		join(func(i int) string { return seps[i%len(seps)] }),
 		"// leading comment\n\n" + join(func(i int) string { return seps[(i*3+1)%len(seps)] }) + "\n/* trailing */\n",
+		// block comments with nothing around them; after a token made of [A-Z0-9/] only (asset, number,
+		// ratio) a blank comes first: there the '/' of the comment would be lexed into the token (known finding)
+		join(func(i int) string {
+			if mergesWithSlash(real[i-1]) {
+				return " /*c*/"
+			}
+			return "/*c*/"
+		}),
 	}
 }
